@@ -561,14 +561,25 @@ static bool parse_comment(TokenContext &ctx, Chunk &pc)
             break;
          }
 
+         // count the line ending for the 'newlines = auto' detection
          if (ctx.peek() == '\r')
          {
             pc.Str().append(ctx.get());
-         }
 
-         if (ctx.peek() == '\n')
+            if (ctx.peek() == '\n')
+            {
+               pc.Str().append(ctx.get());
+               ++LE_COUNT(CRLF);
+            }
+            else
+            {
+               ++LE_COUNT(CR);
+            }
+         }
+         else   // must be '\n'
          {
             pc.Str().append(ctx.get());
+            ++LE_COUNT(LF);
          }
          pc.SetNlCount(pc.GetNlCount() + 1);
          cpd.did_newline = true;
@@ -1710,14 +1721,25 @@ static bool parse_word(TokenContext &ctx, Chunk &pc, bool skipcheck)
                   break;
                }
 
+               // count the line ending for the 'newlines = auto' detection
                if (ctx.peek() == '\r')
                {
                   pc.Str().append(ctx.get());
-               }
 
-               if (ctx.peek() == '\n')
+                  if (ctx.peek() == '\n')
+                  {
+                     pc.Str().append(ctx.get());
+                     ++LE_COUNT(CRLF);
+                  }
+                  else
+                  {
+                     ++LE_COUNT(CR);
+                  }
+               }
+               else   // must be '\n'
                {
                   pc.Str().append(ctx.get());
+                  ++LE_COUNT(LF);
                }
                pc.SetNlCount(pc.GetNlCount() + 1);
                cpd.did_newline = true;
@@ -1900,9 +1922,21 @@ static bool parse_bs_newline(TokenContext &ctx, Chunk &pc)
       if (  (ch == '\r')
          || (ch == '\n'))
       {
+         // count the line ending for the 'newlines = auto' detection
          if (ch == '\r')
          {
-            ctx.expect('\n');
+            if (ctx.expect('\n'))
+            {
+               ++LE_COUNT(CRLF);
+            }
+            else
+            {
+               ++LE_COUNT(CR);
+            }
+         }
+         else
+         {
+            ++LE_COUNT(LF);
          }
          pc.SetType(CT_NL_CONT);
          pc.Str() = "\\";
